@@ -23,6 +23,17 @@ CLAIMED = {
                 "Bounded: the listed templates, English (and autodetection for marked templates), fixed-offset zones.",
         "design_ref": "DESIGN.md §3 C01",
     },
+    "C07": {
+        "text": "Public entry get_date_data for numeric three-field dates (4-digit zero-padded year) rendered in each of "
+                "the 6 orders with separators '-', '/', '.', ' ' (optional HH:MM): with every valid (y,m,d) for years "
+                "1-9999, PREFER_* and the clock symbolic, z3 shows per path that an explicit DATE_ORDER yields exactly the "
+                "fields the order names (also against a language whose own order differs), and that without DATE_ORDER "
+                "the language's/locale's own order (or MDY with PREFER_LOCALE_DATE_ORDER off) is used; the per-language "
+                "loop visits a seed-rotated slice in the quick tier and all 205 languages + differing regional locales "
+                "in the thorough tier. One open known finding (year read as a UTC offset after '-') is assumed away "
+                "for its exact, recomputed region and re-confirmed natively each run.",
+        "design_ref": "DESIGN.md §3 C07",
+    },
     "C08": {
         "text": "Kernels (set_correct_day/month_from_settings, get_last_day_of_month) and the public entry "
                 "get_date_data for month-year / year-only / full-date English templates and strptime formats are executed "
